@@ -56,7 +56,11 @@ class ExactAlgorithmPulp(RankAggAlgorithm, PairwiseBasedAlgorithm):
         positions: ndarray = dataset.get_positions()
 
         # get the graph of elements and the score matrix
-        graph, cost_matrix = ExactAlgorithmPulp.graph_of_elements(positions, scoring_scheme)
+        # the optimal consensus does not depend on the scale of the penalties, but the tolerances of the solver are
+        # absolute: the costs are computed with the penalties divided by B[1] (> 0 for any valid scoring scheme), so
+        # that a disagreement costs 1 whatever the magnitude of the scoring scheme
+        scale: float = scoring_scheme.b_vector[1]
+        graph, cost_matrix = ExactAlgorithmPulp.graph_of_elements(positions, scoring_scheme * (1. / scale))
 
         # values of penalty associated to each true pulp variable
         my_values: List[float] = []
@@ -102,7 +106,7 @@ class ExactAlgorithmPulp(RankAggAlgorithm, PairwiseBasedAlgorithm):
         # Kemeny score is computed on demand by the Consensus object
         objective_value = prob.objective.value()
         if objective_value is not None:
-            att[ConsensusFeature.KEMENY_SCORE] = objective_value
+            att[ConsensusFeature.KEMENY_SCORE] = objective_value * scale
         return Consensus(consensus_rankings=[Ranking(ranking)],
                          dataset=dataset,
                          scoring_scheme=scoring_scheme,
